@@ -4,4 +4,503 @@
 import JS.Keywords
 import JS.Spec.Equality
 namespace JS
+
+/-! ### numbers -/
+
+theorem Spec.numVal_eq (a : Num) :
+    Spec.numVal a = (a.sm * 2 ^ a.ex.toNat, (-a.ex).toNat) := by
+  cases a with
+  | int v => simp [Spec.numVal, Num.sm, Num.ex]
+  | flt neg m e =>
+    simp only [Spec.numVal, Num.sm, Num.ex]
+    split
+    · next h => rw [show (-e).toNat = 0 by omega]
+    · next h => rw [show e.toNat = 0 by omega, Int.pow_zero, Int.mul_one]
+
+theorem pow_two_cancel (s t : Int) (p q c u1 u2 v1 v2 : Nat) (hu : u1 + u2 = p + c)
+    (hv : v1 + v2 = q + c) :
+    (s * 2 ^ p = t * 2 ^ q) ↔ (s * 2 ^ u1 * 2 ^ u2 = t * 2 ^ v1 * 2 ^ v2) := by
+  have h2 : (2 : Int) ^ c ≠ 0 := by
+    apply Int.pow_ne_zero; decide
+  rw [Int.mul_assoc, Int.mul_assoc, ← Int.pow_add, ← Int.pow_add, hu, hv,
+    Int.pow_add, Int.pow_add, ← Int.mul_assoc, ← Int.mul_assoc]
+  exact (Int.mul_eq_mul_right_iff h2).symm
+
+theorem Num.eq_eq_numEq (a b : Num) : Num.eq a b = Spec.numEq a b := by
+  unfold Num.eq Spec.numEq Num.scaled
+  rw [Spec.numVal_eq a, Spec.numVal_eq b]
+  generalize a.sm = s, b.sm = t, a.ex = e, b.ex = f
+  apply decide_eq_decide.mpr
+  exact pow_two_cancel s t _ _ ((-e).toNat + (-f).toNat + min e f).toNat _ _ _ _
+    (by omega) (by omega)
+
+/-! ### induction principle for `Json` -/
+
+theorem Json.induct {P : Json → Prop}
+    (null : P .null) (bool : ∀ b, P (.bool b)) (num : ∀ n, P (.num n)) (str : ∀ s, P (.str s))
+    (arr : ∀ xs, (∀ x ∈ xs, P x) → P (.arr xs))
+    (obj : ∀ kvs, (∀ q ∈ kvs, P q.2) → P (.obj kvs)) : ∀ j, P j :=
+  Json.rec (motive_1 := P) (motive_2 := fun xs => ∀ x ∈ xs, P x)
+    (motive_3 := fun kvs => ∀ q ∈ kvs, P q.2) (motive_4 := fun q => P q.2)
+    null bool num str arr obj
+    (by intro x hx; cases hx)
+    (by
+      intro h t ih1 ih2 x hx
+      rcases List.mem_cons.mp hx with rfl | hx
+      · exact ih1
+      · exact ih2 x hx)
+    (by intro x hx; cases hx)
+    (by
+      intro h t ih1 ih2 x hx
+      rcases List.mem_cons.mp hx with rfl | hx
+      · exact ih1
+      · exact ih2 x hx)
+    (by intro k v ih; exact ih)
+
+/-! ### keys, `lookupWith` -/
+
+/-- the key list of an object -/
+def keys (xs : List (Str × Json)) : List Str := xs.map Prod.fst
+
+theorem mem_keys {k : Str} {xs : List (Str × Json)} : k ∈ keys xs ↔ ∃ v, (k, v) ∈ xs := by
+  simp [keys]
+
+theorem keysDistinct_iff (xs : List (Str × Json)) :
+    Spec.keysDistinct xs = true ↔ (keys xs).Nodup := by
+  induction xs with
+  | nil => simp [Spec.keysDistinct, keys]
+  | cons q xs ih =>
+    obtain ⟨k, v⟩ := q
+    simp only [Spec.keysDistinct, keys, List.map_cons, List.nodup_cons, Bool.and_eq_true,
+      Bool.not_eq_true', ← Bool.not_eq_true, List.any_eq_true, beq_iff_eq] at ih ⊢
+    rw [ih]
+    simp only [List.mem_map]
+
+theorem sameKeys_iff (xs ys : List (Str × Json)) :
+    Spec.sameKeys xs ys = true ↔ keys xs ⊆ keys ys ∧ keys ys ⊆ keys xs := by
+  have aux : ∀ xs ys : List (Str × Json),
+      (xs.all (fun p => ys.any (fun q => q.1 == p.1)) = true) ↔ keys xs ⊆ keys ys := by
+    intro xs ys
+    simp only [List.all_eq_true, List.any_eq_true, beq_iff_eq, keys]
+    constructor
+    · intro h k hk
+      obtain ⟨p, hp, rfl⟩ := List.mem_map.mp hk
+      obtain ⟨q, hq, hqk⟩ := h p hp
+      exact List.mem_map.mpr ⟨q, hq, hqk⟩
+    · intro h p hp
+      obtain ⟨q, hq, hqk⟩ := List.mem_map.mp (h (List.mem_map.mpr ⟨p, hp, rfl⟩))
+      exact ⟨q, hq, hqk⟩
+  unfold Spec.sameKeys
+  rw [Bool.and_eq_true, aux xs ys]
+  have h2 := aux ys xs
+  simp only [List.all_eq_true, List.any_eq_true, beq_iff_eq] at h2 ⊢
+  rw [h2]
+
+theorem sameKeys_comm (xs ys : List (Str × Json)) : Spec.sameKeys xs ys = Spec.sameKeys ys xs := by
+  rw [Bool.eq_iff_iff, sameKeys_iff, sameKeys_iff]
+  exact And.comm
+
+theorem sameKeys_self (xs : List (Str × Json)) : Spec.sameKeys xs xs = true := by
+  rw [sameKeys_iff]; exact ⟨fun _ h => h, fun _ h => h⟩
+
+/-- pigeonhole: a duplicate-free list contained in a list that is not longer contains it -/
+theorem subset_of_nodup_of_length_le {α : Type} [DecidableEq α] :
+    ∀ (xs ys : List α), xs.Nodup → xs ⊆ ys → ys.length ≤ xs.length → ys ⊆ xs := by
+  intro xs
+  induction xs with
+  | nil =>
+    intro ys _ _ hl y hy
+    have : ys = [] := List.eq_nil_of_length_eq_zero (by simpa using hl)
+    subst this; cases hy
+  | cons a t ih =>
+    intro ys hnd hsub hl y hy
+    rw [List.nodup_cons] at hnd
+    have ha : a ∈ ys := hsub List.mem_cons_self
+    have htsub : t ⊆ ys.erase a := by
+      intro x hx
+      have hxa : x ≠ a := fun h => hnd.1 (h ▸ hx)
+      exact (List.mem_erase_of_ne hxa).2 (hsub (List.mem_cons_of_mem _ hx))
+    have hlen : (ys.erase a).length = ys.length - 1 := by rw [List.length_erase]; simp [ha]
+    have hl' : (ys.erase a).length ≤ t.length := by
+      rw [hlen]; simp only [List.length_cons] at hl; omega
+    by_cases hya : y = a
+    · subst hya; exact List.mem_cons_self
+    · exact List.mem_cons_of_mem _ (ih _ hnd.2 htsub hl' ((List.mem_erase_of_ne hya).2 hy))
+
+/-- for duplicate-free key lists with `keys xs ⊆ keys ys`: same size iff same key set -/
+theorem length_beq_eq_sameKeys (xs ys : List (Str × Json))
+    (dx : Spec.keysDistinct xs = true) (dy : Spec.keysDistinct ys = true)
+    (hsub : keys xs ⊆ keys ys) : (xs.length == ys.length) = Spec.sameKeys xs ys := by
+  rw [keysDistinct_iff] at dx dy
+  rw [Bool.eq_iff_iff, sameKeys_iff, beq_iff_eq]
+  have lx : (keys xs).length = xs.length := by simp [keys]
+  have ly : (keys ys).length = ys.length := by simp [keys]
+  constructor
+  · intro h
+    exact ⟨hsub, subset_of_nodup_of_length_le _ _ dx hsub (by omega)⟩
+  · rintro ⟨h1, h2⟩
+    have := dx.length_le_of_subset h1
+    have := dy.length_le_of_subset h2
+    omega
+
+theorem hasWith_eq_lookupWith (k : Str) (p : Json → Bool) (ys : List (Str × Json)) :
+    Spec.hasWith k p ys = lookupWith k p ys := by
+  induction ys with
+  | nil => rfl
+  | cons q ys ih => obtain ⟨k', v⟩ := q; simp only [Spec.hasWith, lookupWith, ih]
+
+theorem lookupWith_congr (k : Str) (p p' : Json → Bool) (ys : List (Str × Json))
+    (h : ∀ q ∈ ys, p q.2 = p' q.2) : lookupWith k p ys = lookupWith k p' ys := by
+  induction ys with
+  | nil => rfl
+  | cons q ys ih =>
+    obtain ⟨k', v⟩ := q
+    simp only [lookupWith]
+    rw [ih (fun q hq => h q (List.mem_cons_of_mem _ hq)), h (k', v) List.mem_cons_self]
+
+theorem lookupWith_true_mem (k : Str) (p : Json → Bool) (ys : List (Str × Json))
+    (h : lookupWith k p ys = true) : ∃ w, (k, w) ∈ ys ∧ p w = true := by
+  induction ys with
+  | nil => simp [lookupWith] at h
+  | cons q ys ih =>
+    obtain ⟨k', v⟩ := q
+    simp only [lookupWith] at h
+    split at h
+    · next hk => subst hk; exact ⟨v, List.mem_cons_self, h⟩
+    · obtain ⟨w, hw, hp⟩ := ih h
+      exact ⟨w, List.mem_cons_of_mem _ hw, hp⟩
+
+theorem lookupWith_of_mem (k : Str) (w : Json) (p : Json → Bool) (ys : List (Str × Json))
+    (d : Spec.keysDistinct ys = true) (hm : (k, w) ∈ ys) : lookupWith k p ys = p w := by
+  induction ys with
+  | nil => cases hm
+  | cons q ys ih =>
+    obtain ⟨k', v⟩ := q
+    simp only [Spec.keysDistinct, Bool.and_eq_true, Bool.not_eq_true', ← Bool.not_eq_true,
+      List.any_eq_true, beq_iff_eq] at d
+    simp only [lookupWith]
+    rcases List.mem_cons.mp hm with heq | hm'
+    · cases heq; simp
+    · have hne : k' ≠ k := fun hk => d.1 ⟨(k, w), hm', hk.symm⟩
+      rw [if_neg hne]
+      exact ih (by simpa using d.2) hm'
+
+/-! ### the three list-level functions as quantified statements -/
+
+theorem equalKvs_iff (xs ys : List (Str × Json)) :
+    equalKvs xs ys = true ↔ ∀ q ∈ xs, lookupWith q.1 (equal q.2) ys = true := by
+  induction xs with
+  | nil => simp [equalKvs]
+  | cons q xs ih => obtain ⟨k, v⟩ := q; simp [equalKvs, ih]
+
+theorem jsonSub_iff (xs ys : List (Str × Json)) :
+    Spec.jsonSub xs ys = true ↔ ∀ q ∈ xs, lookupWith q.1 (Spec.jsonEq q.2) ys = true := by
+  induction xs with
+  | nil => simp [Spec.jsonSub]
+  | cons q xs ih => obtain ⟨k, v⟩ := q; simp [Spec.jsonSub, ih, hasWith_eq_lookupWith]
+
+theorem sub_keys (f : Json → Json → Bool) (xs ys : List (Str × Json))
+    (h : ∀ q ∈ xs, lookupWith q.1 (f q.2) ys = true) : keys xs ⊆ keys ys := by
+  intro k hk
+  obtain ⟨v, hv⟩ := mem_keys.mp hk
+  obtain ⟨w, hw, _⟩ := lookupWith_true_mem _ _ _ (h _ hv)
+  exact mem_keys.mpr ⟨w, hw⟩
+
+/-! ### well-formedness of members -/
+
+theorem WFList_mem {xs : List Json} (h : Spec.WFList xs = true) : ∀ x ∈ xs, Spec.WF x = true := by
+  induction xs with
+  | nil => intro x hx; cases hx
+  | cons y ys ih =>
+    simp only [Spec.WFList, Bool.and_eq_true] at h
+    intro x hx
+    rcases List.mem_cons.mp hx with rfl | hx
+    · exact h.1
+    · exact ih h.2 x hx
+
+theorem WFKvs_mem {xs : List (Str × Json)} (h : Spec.WFKvs xs = true) :
+    ∀ q ∈ xs, Spec.WF q.2 = true := by
+  induction xs with
+  | nil => intro x hx; cases hx
+  | cons y ys ih =>
+    obtain ⟨k, v⟩ := y
+    simp only [Spec.WFKvs, Bool.and_eq_true] at h
+    intro x hx
+    rcases List.mem_cons.mp hx with rfl | hx
+    · exact h.1
+    · exact ih h.2 x hx
+
+theorem WF_obj {xs : List (Str × Json)} (h : Spec.WF (.obj xs) = true) :
+    Spec.keysDistinct xs = true ∧ ∀ q ∈ xs, Spec.WF q.2 = true := by
+  simp only [Spec.WF, Bool.and_eq_true] at h
+  exact ⟨h.1, WFKvs_mem h.2⟩
+
+theorem WF_arr {xs : List Json} (h : Spec.WF (.arr xs) = true) : ∀ x ∈ xs, Spec.WF x = true := by
+  simp only [Spec.WF] at h
+  exact WFList_mem h
+
+/-! ### `equal` is `jsonEq` -/
+
+theorem equalList_eq (xs : List Json)
+    (ih : ∀ x ∈ xs, ∀ b, Spec.WF x = true → Spec.WF b = true → equal x b = Spec.jsonEq x b) :
+    ∀ ys, (∀ x ∈ xs, Spec.WF x = true) → (∀ y ∈ ys, Spec.WF y = true) →
+      equalList xs ys = Spec.jsonEqList xs ys := by
+  induction xs with
+  | nil => intro ys _ _; cases ys <;> simp [equalList, Spec.jsonEqList]
+  | cons x xs ihx =>
+    intro ys hx hy
+    cases ys with
+    | nil => simp [equalList, Spec.jsonEqList]
+    | cons y ys =>
+      simp only [equalList, Spec.jsonEqList]
+      rw [ih x List.mem_cons_self y (hx x List.mem_cons_self) (hy y List.mem_cons_self),
+        ihx (fun x hx => ih x (List.mem_cons_of_mem _ hx)) ys
+          (fun x h => hx x (List.mem_cons_of_mem _ h)) (fun y h => hy y (List.mem_cons_of_mem _ h))]
+
+theorem equal_eq_jsonEq : ∀ a b : Json, Spec.WF a = true → Spec.WF b = true →
+    equal a b = Spec.jsonEq a b := by
+  intro a
+  induction a using Json.induct with
+  | null => intro b _ _; cases b <;> simp [equal, Spec.jsonEq]
+  | bool x => intro b _ _; cases b <;> simp [equal, Spec.jsonEq]
+  | num x => intro b _ _; cases b <;> simp [equal, Spec.jsonEq, Num.eq_eq_numEq]
+  | str x => intro b _ _; cases b <;> simp [equal, Spec.jsonEq]
+  | arr xs ih =>
+    intro b ha hb
+    cases b with
+    | arr ys =>
+      simp only [equal, Spec.jsonEq]
+      exact equalList_eq xs ih ys (WF_arr ha) (WF_arr hb)
+    | _ => simp [equal, Spec.jsonEq]
+  | obj xs ih =>
+    intro b ha hb
+    cases b with
+    | obj ys =>
+      obtain ⟨dx, wx⟩ := WF_obj ha
+      obtain ⟨dy, wy⟩ := WF_obj hb
+      simp only [equal, Spec.jsonEq]
+      have hsub : equalKvs xs ys = Spec.jsonSub xs ys := by
+        rw [Bool.eq_iff_iff, equalKvs_iff, jsonSub_iff]
+        apply forall_congr'; intro q; apply forall_congr'; intro hq
+        rw [lookupWith_congr q.1 (equal q.2) (Spec.jsonEq q.2) ys
+          (fun r hr => ih q hq r.2 (wx q hq) (wy r hr))]
+      rw [hsub]
+      cases hS : Spec.jsonSub xs ys with
+      | false => simp
+      | true =>
+        rw [Bool.and_true, Bool.and_true]
+        exact length_beq_eq_sameKeys xs ys dx dy (sub_keys _ xs ys ((jsonSub_iff xs ys).mp hS))
+    | _ => simp [equal, Spec.jsonEq]
+
+/-! ### `jsonEq` is reflexive and symmetric -/
+
+theorem jsonEqList_refl (xs : List Json) (ih : ∀ x ∈ xs, Spec.jsonEq x x = true) :
+    Spec.jsonEqList xs xs = true := by
+  induction xs with
+  | nil => simp [Spec.jsonEqList]
+  | cons x xs ihx =>
+    simp only [Spec.jsonEqList, Bool.and_eq_true]
+    exact ⟨ih x List.mem_cons_self, ihx (fun y hy => ih y (List.mem_cons_of_mem _ hy))⟩
+
+theorem jsonEq_refl' : ∀ a : Json, Spec.WF a = true → Spec.jsonEq a a = true := by
+  intro a
+  induction a using Json.induct with
+  | null => intro _; simp [Spec.jsonEq]
+  | bool x => intro _; simp [Spec.jsonEq]
+  | num x =>
+    intro _
+    simp [Spec.jsonEq, Spec.numEq]
+  | str x => intro _; simp [Spec.jsonEq]
+  | arr xs ih =>
+    intro ha
+    simp only [Spec.jsonEq]
+    exact jsonEqList_refl xs (fun x hx => ih x hx (WF_arr ha x hx))
+  | obj xs ih =>
+    intro ha
+    obtain ⟨dx, wx⟩ := WF_obj ha
+    simp only [Spec.jsonEq, Bool.and_eq_true]
+    refine ⟨sameKeys_self xs, (jsonSub_iff xs xs).mpr ?_⟩
+    intro q hq
+    rw [lookupWith_of_mem q.1 q.2 _ xs dx hq]
+    exact ih q hq (wx q hq)
+
+theorem jsonEqList_symm (xs : List Json)
+    (ih : ∀ x ∈ xs, ∀ b, Spec.WF x = true → Spec.WF b = true → Spec.jsonEq x b = Spec.jsonEq b x) :
+    ∀ ys, (∀ x ∈ xs, Spec.WF x = true) → (∀ y ∈ ys, Spec.WF y = true) →
+      Spec.jsonEqList xs ys = Spec.jsonEqList ys xs := by
+  induction xs with
+  | nil => intro ys _ _; cases ys <;> simp [Spec.jsonEqList]
+  | cons x xs ihx =>
+    intro ys hx hy
+    cases ys with
+    | nil => simp [Spec.jsonEqList]
+    | cons y ys =>
+      simp only [Spec.jsonEqList]
+      rw [ih x List.mem_cons_self y (hx x List.mem_cons_self) (hy y List.mem_cons_self),
+        ihx (fun x hx => ih x (List.mem_cons_of_mem _ hx)) ys
+          (fun x h => hx x (List.mem_cons_of_mem _ h)) (fun y h => hy y (List.mem_cons_of_mem _ h))]
+
+/-- one direction of the symmetry of "every member has a related value under its key" -/
+theorem sub_swap (f g : Json → Json → Bool) (xs ys : List (Str × Json))
+    (dx : Spec.keysDistinct xs = true) (dy : Spec.keysDistinct ys = true)
+    (hk : keys ys ⊆ keys xs)
+    (hfg : ∀ q ∈ xs, ∀ r ∈ ys, f q.2 r.2 = g r.2 q.2)
+    (h : ∀ q ∈ xs, lookupWith q.1 (f q.2) ys = true) :
+    ∀ r ∈ ys, lookupWith r.1 (g r.2) xs = true := by
+  intro r hr
+  obtain ⟨v, hv⟩ := mem_keys.mp (hk (mem_keys.mpr ⟨r.2, hr⟩))
+  have h1 := h _ hv
+  rw [lookupWith_of_mem r.1 r.2 _ ys dy hr] at h1
+  rw [lookupWith_of_mem r.1 v _ xs dx hv, ← hfg _ hv r hr]
+  exact h1
+
+theorem numEq_symm (a b : Num) : Spec.numEq a b = Spec.numEq b a := by
+  unfold Spec.numEq
+  apply decide_eq_decide.mpr
+  exact eq_comm
+
+theorem jsonEq_symm' : ∀ a b : Json, Spec.WF a = true → Spec.WF b = true →
+    Spec.jsonEq a b = Spec.jsonEq b a := by
+  intro a
+  induction a using Json.induct with
+  | null => intro b _ _; cases b <;> simp [Spec.jsonEq]
+  | bool x => intro b _ _; cases b <;> simp [Spec.jsonEq, Bool.beq_comm]
+  | num x => intro b _ _; cases b <;> simp [Spec.jsonEq, numEq_symm x]
+  | str x => intro b _ _; cases b <;> simp [Spec.jsonEq]; exact BEq.comm
+  | arr xs ih =>
+    intro b ha hb
+    cases b with
+    | arr ys =>
+      simp only [Spec.jsonEq]
+      exact jsonEqList_symm xs ih ys (WF_arr ha) (WF_arr hb)
+    | _ => simp [Spec.jsonEq]
+  | obj xs ih =>
+    intro b ha hb
+    cases b with
+    | obj ys =>
+      obtain ⟨dx, wx⟩ := WF_obj ha
+      obtain ⟨dy, wy⟩ := WF_obj hb
+      simp only [Spec.jsonEq]
+      rw [sameKeys_comm ys xs]
+      cases hK : Spec.sameKeys xs ys with
+      | false => simp
+      | true =>
+        rw [Bool.true_and, Bool.true_and, Bool.eq_iff_iff, jsonSub_iff, jsonSub_iff]
+        obtain ⟨k1, k2⟩ := (sameKeys_iff xs ys).mp hK
+        constructor
+        · exact sub_swap _ _ xs ys dx dy k2 (fun q hq r hr => ih q hq r.2 (wx q hq) (wy r hr))
+        · exact sub_swap _ _ ys xs dy dx k1
+            (fun r hr q hq => (ih q hq r.2 (wx q hq) (wy r hr)).symm)
+    | _ => simp [Spec.jsonEq]
+
+/-! ### `uniq` -/
+
+theorem unboolEq_eq_equal (x y : Json) (hx : hashable x = true) (hy : hashable y = true) :
+    unboolEq x y = equal x y := by
+  cases x <;> cases y <;> simp [unboolEq, pyEq, equal, hashable] at hx hy ⊢
+
+theorem any_congr_mem {α : Type} (xs : List α) (f g : α → Bool) (h : ∀ x ∈ xs, f x = g x) :
+    xs.any f = xs.any g := by
+  induction xs with
+  | nil => rfl
+  | cons x xs ih =>
+    simp only [List.any_cons]
+    rw [h x List.mem_cons_self, ih (fun y hy => h y (List.mem_cons_of_mem _ hy))]
+
+theorem hasDupHash_eq_hasDup (xs : List Json) (h : xs.all hashable = true) :
+    hasDupHash xs = hasDup xs := by
+  induction xs with
+  | nil => rfl
+  | cons x xs ih =>
+    simp only [List.all_cons, Bool.and_eq_true] at h
+    simp only [hasDupHash, hasDup]
+    rw [ih h.2, any_congr_mem xs (unboolEq x) (equal x)
+      (fun y hy => unboolEq_eq_equal x y h.1 (List.all_eq_true.mp h.2 y hy))]
+
+theorem hasDup_eq (xs : List Json) (h : Spec.WFList xs = true) :
+    hasDup xs = !Spec.allDistinct xs := by
+  induction xs with
+  | nil => rfl
+  | cons x xs ih =>
+    simp only [Spec.WFList, Bool.and_eq_true] at h
+    simp only [hasDup, Spec.allDistinct]
+    rw [ih h.2, any_congr_mem xs (equal x) (Spec.jsonEq x)
+      (fun y hy => equal_eq_jsonEq x y h.1 (WFList_mem h.2 y hy))]
+    simp
+
+theorem uniq_eq_allDistinct (xs : List Json) (h : Spec.WFList xs = true) :
+    uniq xs = Spec.allDistinct xs := by
+  unfold uniq
+  split
+  · next hh => rw [hasDupHash_eq_hasDup xs hh, hasDup_eq xs h, Bool.not_not]
+  · rw [hasDup_eq xs h, Bool.not_not]
+
+/-! ### generators -/
+
+theorem nothing_errs (b : Option Nat) (st : RState) : (nothing b st).errs = [] := by
+  unfold nothing emit
+  cases b with
+  | none => rfl
+  | some k => dsimp only; split <;> simp
+
+theorem emit_st (es : List Err) (b : Option Nat) (st : RState) : (emit es b st).st = st := by
+  unfold emit
+  cases b with
+  | none => rfl
+  | some k => dsimp only; split <;> rfl
+
+theorem emit_one_errs (e : Err) (b : Option Nat) (st : RState) (hb : b ≠ some 0) :
+    (emit [e] b st).errs ≠ [] := by
+  unfold emit
+  cases b with
+  | none => simp
+  | some k =>
+    have hk : k ≠ 0 := fun h => hb (by rw [h])
+    dsimp only
+    split
+    · simp
+    · obtain ⟨k', rfl⟩ := Nat.exists_eq_succ_of_ne_zero hk
+      simp
+
+theorem kwConst_errs (c x : Json) (b : Option Nat) (st : RState) (hb : b ≠ some 0) :
+    (kwConst c x b st).errs = [] ↔ equal x c = true := by
+  unfold kwConst
+  cases h : equal x c with
+  | true => simp [nothing_errs]
+  | false => simpa using emit_one_errs _ b st hb
+
+theorem kwConst_st (c x : Json) (b : Option Nat) (st : RState) : (kwConst c x b st).st = st := by
+  unfold kwConst nothing
+  split <;> exact emit_st _ _ _
+
+theorem kwEnum_errs (es : List Json) (x : Json) (b : Option Nat) (st : RState) (hb : b ≠ some 0) :
+    (kwEnum (.arr es) x b st).errs = [] ↔ es.any (equal x) = true := by
+  unfold kwEnum
+  dsimp only
+  have hall : es.all (fun each => !equal x each) = !es.any (equal x) := by
+    induction es with
+    | nil => rfl
+    | cons e es ih => simp only [List.all_cons, List.any_cons, ih, Bool.not_or]
+  rw [hall]
+  cases h : es.any (equal x) with
+  | true => simp [nothing_errs]
+  | false => simpa using emit_one_errs _ b st hb
+
+theorem kwUniqueItems_errs (cfg : Cfg) (xs : List Json)
+    (harr : lookupS (skey "array") cfg.types = some .isArray)
+    (b : Option Nat) (st : RState) (hb : b ≠ some 0) :
+    (kwUniqueItems cfg (.bool true) (.arr xs) b st).errs = [] ↔ uniq xs = true := by
+  have ht : isTypeS cfg (.arr xs) "array" = .ok true := by
+    unfold isTypeS isType
+    dsimp only
+    have : lookupS "array".toList cfg.types = some .isArray := harr
+    rw [this]
+    rfl
+  unfold kwUniqueItems
+  rw [ht]
+  simp only [truthy, withRes, Bool.not_true, Bool.false_eq_true, if_false]
+  cases h : uniq xs with
+  | true => simp [nothing_errs]
+  | false => simpa using emit_one_errs _ b st hb
+
 end JS
